@@ -1,8 +1,29 @@
 """C14: MBXML variable-length numbers.  Functions under contract: MBXML.read_uintvar / write_uintvar / read_sintvar /
 write_sintvar (symbolic 32 / 31-bit values, the bin() model forks over the bit length), write_infotime (symbolic calendar
 fields); bounded native contracts for the float codecs and latitude / longitude (floats are outside the engine)."""
-from pyvc.contract import contract
+from pyvc.contract import contract, stub
 from okdmr.dmrlib.motorola.mbxml import MBXML
+
+_real_write_uintvar = MBXML.__dict__["write_uintvar"].__func__
+
+
+@stub("MBXML.write_uintvar", "okdmr.dmrlib.motorola.mbxml:MBXML.write_uintvar", provided_by="MBXML.uintvar")
+def write_uintvar_by_contract(cls, value):
+    """what callers see [contract MBXML.uintvar]: the canonical encoding - as many septets as the value needs, most
+    significant first, continuation bit on all but the last - which read_uintvar maps back to the value.  (The real function
+    goes through bin(): one path per bit length; the contract needs one per septet count.)"""
+    if isinstance(value, int):
+        return _real_write_uintvar(cls, value)
+    from pyvc.values import SInt, SBytes, as_sint
+
+    v = SInt.lift(as_sint(value))
+    if len(v.bits) > 32 and bool((v >> 32) != 0):
+        raise AssertionError("write_uintvar cannot write integers bigger than 4294967295")
+    n = 1
+    while n < 5 and bool((v >> (7 * n)) != 0):  # (forced when the caller's precondition fixes the magnitude)
+        n += 1
+    septs = [(v >> (7 * j)) & 0x7F for j in range(n)]
+    return SBytes([(s | 0x80) if j else s for j, s in reversed(list(enumerate(septs)))]).n()
 
 
 def canonical_uintvar(v):
